@@ -57,7 +57,7 @@ static void case_c01(const drvargs_t *a,long id){
       if(op.e_o_s && op.granulepos>=0){ ogg_int64_t full=gprev+I.nout; if(op.granulepos<full){ long cut=(long)(full-op.granulepos); expect= cut>I.nout?0:I.nout-cut; } }
       gprev+=I.nout;
       float **pcm; long got=0; int n;
-      double tol=(I.floor0_used||prev_f0?5e-3:1e-4)*(prevnorm+I.norm)+1e-7; int skip=I.nonfinite || prev_bad || !(prevnorm+I.norm<1e25);
+      double tol=(I.floor0_used||prev_f0?2e-2:1e-4)*(prevnorm+I.norm)+1e-7; int skip=I.nonfinite || prev_bad || !(prevnorm+I.norm<1e25);
       while((n=vorbis_synthesis_pcmout(&L.vd,&pcm))>0){
         if(!skip) for(int c=0;c<ch&&ok;c++) for(int k=0;k<n;k++){
           long ix=got+k; if(ix>=expect) break;
